@@ -475,3 +475,48 @@ class Effects:
     # ------------------------------------------------------------- queries
     def mutates(self, fi: FuncInfo) -> Set[str]:
         return self.summary.get(fi.id, set())
+
+
+def mutating_nodes(eff: Effects, fi: FuncInfo) -> Dict[int, str]:
+    """ids of AST nodes in `fi` whose evaluation mutates non-fresh state (direct sites and calls /
+    property stores whose callee summary maps onto non-fresh objects) -> description."""
+    out: Dict[int, str] = {}
+    for s in eff.sites(fi):
+        if s.targets:
+            out[id(s.node)] = s.what
+    fe = eff.fe(fi)
+    env = eff.res.local_types(fi)
+    for n in walk_no_nested(fi.node):
+        if isinstance(n, ast.Call):
+            recv = n.func.value if isinstance(n.func, ast.Attribute) else None
+            for c in eff.res.resolve_call(fi, n, env):
+                cands = []
+                if isinstance(c, ClassInfo):
+                    for nm in ('__init__',):
+                        m = eff.idx.lookup_method(c.id, nm)
+                        if m is not None:
+                            cands.append((m, None, bind_args(n, m.node, skip_first=True)))
+                else:
+                    skip = c.kind in ('method', 'classmethod', 'property', 'setter')
+                    cands.append((c, recv, bind_args(n, c.node, skip_first=skip)))
+                for callee, rv, args in cands:
+                    for t in eff.summary.get(callee.id, ()):
+                        base = t[:-2] if t.endswith('[]') else t
+                        if base in ('global', 'unknown'):
+                            out.setdefault(id(n), f'call {norm(n.func)} mutates {base}')
+                            continue
+                        cparams = [a.arg for a in callee.node.args.args]
+                        if callee.kind in ('method', 'property', 'setter', 'classmethod') and cparams and base == cparams[0]:
+                            expr = rv
+                        else:
+                            expr = args.get(base)
+                        if expr is None:
+                            continue
+                        v = fe.val(expr)
+                        if t.endswith('[]'):
+                            if v.top_fresh and v.elem_fresh:
+                                continue
+                            v = fe.elem_of(v)
+                        if not v.top_fresh:
+                            out.setdefault(id(n), f'call {norm(n.func)}(...) mutates {norm(expr)}')
+    return out
